@@ -1264,6 +1264,9 @@ func (d *Driver) judgeC06() {
 					gone := false
 					for _, a := range d.h.Apis {
 						if a.Inst == in.idx && a.SInv > st.SInv && a.TInv <= deadline && (a.Kind == AStop || a.Kind == AStopCtx || a.Kind == ARestart || a.Kind == AStart || a.Kind == ACancelStart) {
+							if a.Kind == AStart && a.TRet >= 0 && a.Err != nil {
+								continue // a refused Start (already started, stop in progress) changes nothing
+							}
 							gone = true
 						}
 					}
